@@ -369,6 +369,224 @@ def gen_inputs(ctx):
     return out
 
 
+# ------------------------------------------------------------------------------------------------
+# histories: ONE processor, circuit objects that are edited IN PLACE between transpile calls
+# ------------------------------------------------------------------------------------------------
+# {"processor", "N", "M"?, "history": [{"gates": [...], "how": "new" | "attr" | "replace" | "rebuild" | "same", "load": bool}, ...]}
+#   how = how the circuit object of the previous step becomes the circuit of this step:
+#     new      a fresh QubitCircuit object (the processor is reused)
+#     same     the very same object, untouched
+#     attr     the same object; gates that differ are edited through their attributes (arg_value, targets, controls) when the
+#              name is unchanged, otherwise the list entry is replaced (qc.gates[k] = other gate); same number of gates
+#     replace  the same object; every differing list entry is replaced by a new Gate; same number of gates
+#     rebuild  the same object; qc.gates[:] = new gates (any length)
+#   load = call processor.load_circuit(qc) after the transpile of this step (it transpiles again internally)
+# Every transpile is compared with the HISTORY-FREE model and judged by the oracle against the circuit AS IT IS at that call.
+def _step_inp(inp, k):
+    d = dict(processor=inp["processor"], N=inp["N"], gates=inp["history"][k]["gates"])
+    if "M" in inp:
+        d["M"] = inp["M"]
+    return d
+
+
+def _apply_edit(qc, prev, step, M):
+    new_gates = C3._mk_circuit(dict(N=M, gates=step["gates"])).gates
+    how = step["how"]
+    if how == "same":
+        return
+    if how == "rebuild" or len(prev) != len(step["gates"]):
+        qc.gates[:] = new_gates
+        return
+    for i, (old, new) in enumerate(zip(prev, step["gates"])):
+        if old == new:
+            continue
+        if how == "attr" and old[0] == new[0]:
+            g = qc.gates[i]
+            g.arg_value = new_gates[i].arg_value
+            g.targets = new_gates[i].targets
+            g.controls = new_gates[i].controls
+        else:
+            qc.gates[i] = new_gates[i]
+
+
+def run_history(inp):
+    """-> one run_impl-style result per step"""
+    import warnings
+    res = []
+    with warnings.catch_warnings():
+        warnings.simplefilter("ignore")
+        try:
+            proc = _processor(inp["processor"], inp["N"], fresh=True)
+        except Exception as e:
+            return [("unbuildable", repr(e)[:120], None)] * len(inp["history"])
+        native = list(proc.native_gates or [])
+        qc, prev = None, None
+        M = _width(inp)
+        for step in inp["history"]:
+            try:
+                if qc is None or step["how"] == "new":
+                    qc = C3._mk_circuit(dict(N=M, gates=step["gates"]))
+                else:
+                    _apply_edit(qc, prev, step, M)
+            except Exception as e:
+                res.append(("unbuildable", repr(e)[:120], None))
+                qc, prev = None, None
+                continue
+            prev = step["gates"]
+            try:
+                out = proc.transpile(qc)
+                res.append(("ok", C3._canon(out.gates), native))
+            except Exception as e:
+                res.append(("rejected", type(e).__name__ + ": " + str(e)[:80], native))
+            if step.get("load"):
+                try:
+                    proc.load_circuit(qc)
+                except Exception:
+                    pass
+    return res
+
+
+def history_fails(inp):
+    """oracle failures of every step: [(step, what, observed, expected)]"""
+    out = []
+    for k, impl in enumerate(run_history(inp)):
+        if impl[0] == "unbuildable":
+            continue
+        for what, obs, exp in oracle(_step_inp(inp, k), impl):
+            out.append((k, what + " (call %d of a history on one processor; the circuit object was edited in place)" % (k + 1), obs, exp))
+    return out
+
+
+def _edit(gs, N, rng, kind):
+    """a variant of the gate list gs (same length unless kind is append/pop)"""
+    gs = [list(g) for g in gs]
+    idx = list(range(len(gs)))
+    rng.shuffle(idx)
+    if kind == "angle":
+        for i in idx:
+            if KINDS[gs[i][0]][2] == 1:
+                old = gs[i][3]
+                new = rng.choice([a for a in C3.ANGLES if a != old])
+                gs[i] = [gs[i][0], gs[i][1], gs[i][2], new]
+                return gs
+    if kind == "retarget":
+        for i in idx:
+            k = KINDS[gs[i][0]]
+            if 0 < k[0] + k[1] <= N:
+                for _ in range(6):
+                    p = rng.sample(range(N), k[0] + k[1])
+                    t, c = _place(gs[i][0], N, p)
+                    if (t, c) != (gs[i][1], gs[i][2]):
+                        gs[i] = [gs[i][0], t, c, gs[i][3]]
+                        return gs
+    if kind == "pop" and len(gs) > 1:
+        gs.pop(rng.randrange(len(gs)))
+        return gs
+    # replace / append (also the fallback)
+    for _ in range(8):
+        name = rng.choice(ONE + ["CNOT", "CSIGN", "ISWAP", "SWAP", "TOFFOLI", "FREDKIN"])
+        k = KINDS[name]
+        if k[0] + k[1] <= N:
+            break
+    else:
+        name, k = "RX", KINDS["RX"]
+    t, c = _place(name, N, rng.sample(range(N), k[0] + k[1]))
+    g = C3.mk_gate(name, t, c, rng)
+    if kind == "append":
+        gs.append(g)
+    else:
+        gs[rng.randrange(len(gs))] = g
+    return gs
+
+
+def gen_histories(ctx):
+    rng = ctx.rng
+    out = []
+    sizes = {"LinearSpinChain": [2, 3, 4, 5], "CircularSpinChain": [2, 3, 4, 5], "SCQubits": [2, 3, 4, 5], "DispersiveCavityQED": [2, 3, 4, 5]}
+    # the variational sweep: one rotation angle updated in place, on every processor
+    for proc in PROCESSORS:
+        base = [["RX", [0], [], 0.3], ["CNOT", [2], [0], None], ["RZ", [2], [], 0.5], ["ISWAP", [1, 2], [], None]]
+        if proc == "SCQubits":
+            base[3] = ["CSIGN", [1], [2], None]
+        hs = [dict(gates=base, how="new")]
+        for th in (1.1, 2.0):
+            hs.append(dict(gates=[["RX", [0], [], th]] + base[1:], how="attr"))
+        out.append(dict(processor=proc, N=3, history=hs))
+    pool = ONE * 2 + ["CNOT", "CSIGN", "ISWAP", "SWAP", "TOFFOLI", "FREDKIN", "RX", "RZ", "PHASEGATE"]
+    for _ in range(ctx.n(70, 500)):
+        proc = rng.choice(PROCESSORS)
+        N = rng.choice(sizes[proc])
+        M = N if rng.random() < 0.85 else rng.randrange(1, N + 1)
+        gs = []
+        while len(gs) < rng.randint(2, 4):
+            name = rng.choice(pool)
+            k = KINDS[name]
+            if k[0] + k[1] > M:
+                continue
+            t, c = _place(name, M, rng.sample(range(M), k[0] + k[1]))
+            gs.append(C3.mk_gate(name, t, c, rng))
+        if not any(KINDS[g[0]][2] == 1 for g in gs):
+            gs[0] = C3.mk_gate("RX", [rng.randrange(M)], [], rng)
+        hs = [dict(gates=gs, how="new", load=rng.random() < 0.15)]
+        cur = gs
+        for _ in range(rng.randint(2, 4)):
+            kind = rng.choice(["angle", "angle", "retarget", "replace", "append", "pop", "same", "new", "newsame"])
+            if kind == "same":
+                hs.append(dict(gates=cur, how="same"))
+                continue
+            if kind == "newsame":
+                hs.append(dict(gates=cur, how="new"))
+                continue
+            nxt = _edit(cur, M, rng, "replace" if kind == "new" else kind)
+            if kind == "new":
+                how = "new"
+            elif len(nxt) != len(cur):
+                how = "rebuild"
+            else:
+                how = rng.choice(["attr", "attr", "replace", "rebuild"])
+            hs.append(dict(gates=nxt, how=how, load=rng.random() < 0.15))
+            cur = nxt
+        h = dict(processor=proc, N=N, history=hs)
+        if M != N:
+            h["M"] = M
+        out.append(h)
+    return out
+
+
+def check_histories(corr, hists):
+    """run the histories, compare every call with the history-free model and the oracle"""
+    flat, where = [], []
+    impls = []
+    for h in hists:
+        if not all(_safe(_step_inp(h, k)) for k in range(len(h["history"]))):
+            continue
+        res = run_history(h)
+        for k, impl in enumerate(res):
+            if impl[0] == "unbuildable":
+                continue
+            flat.append(_step_inp(h, k))
+            where.append((h, k))
+            impls.append(impl)
+    if not flat:
+        return
+    vals = run_model(flat)
+    for inp, (h, k), impl, val in zip(flat, where, impls, vals):
+        corr.tally("history-call")
+        corr.tally("history:" + h["history"][k]["how"])
+        corr.count(_key(dict(h=h, k=k)), nontrivial=(k > 0), sample=h if k == 1 and len(corr.samples) < 5 else None)
+        hin = dict(h, step=k)
+        try:
+            model = C3.model_out(val, inp)
+        except Exception as e:
+            corr.disagree(hin, _show(impl), repr(val)[:300], f"model output not interpretable: {e!r}")
+            continue
+        if not C3.same(impl[:2], model):
+            corr.disagree(hin, _show(impl), C3._show(model),
+                          "processor.transpile output (call %d of a history on one processor) differs from the history-free Model/Transpile.v" % (k + 1))
+        for what, obs, exp in oracle(inp, impl):
+            corr.oracle_fail(hin, obs, exp, what + " (call %d of a history on one processor; the circuit object was edited in place)" % (k + 1))
+
+
 def load_corpus():
     out = []
     for p in sorted(glob.glob(os.path.join(VERIF, "corpus", "C13", "*.json"))):
@@ -398,11 +616,15 @@ def _show(r):
 def correspond(ctx):
     corr = Corr(rule="four processors x 1-5 qubits: every two-qubit kind on every ordered pair (every distance, both directions), "
                      "three-qubit kinds on ordered triples, one-qubit kinds, random mixed sequences, refused circuits (no rule, SQRTSWAP, "
-                     "measurement), circuits narrower/wider than the processor, malformed gates; non-trivial = the circuit holds a gate "
-                     "on two or more qubits or is refused")
+                     "measurement), circuits narrower/wider than the processor, RZX, malformed gates; histories of 3-5 transpile calls on ONE "
+                     "processor with the circuit object edited in place between the calls (angle, qubits, gate replaced, gates added/removed, "
+                     "untouched, fresh object), each call against the history-free model; non-trivial = the circuit holds a gate on two or "
+                     "more qubits or is refused / a later call of a history")
     seen = set()
     cases = []
-    for kind, inp in load_corpus() + gen_inputs(ctx):
+    corpus = load_corpus()
+    hists = [inp for _, inp in corpus if "history" in inp]
+    for kind, inp in [x for x in corpus if "history" not in x[1]] + gen_inputs(ctx):
         k = _key(inp)
         if k in seen or not _safe(inp):
             continue
@@ -434,6 +656,8 @@ def correspond(ctx):
             corr.tally("load_circuit")
             for what, obs, exp in oracle_load(inp, impl, run_load(inp)):
                 corr.oracle_fail(inp, obs, exp, what)
+    # histories on one processor with in-place edits of the circuit object between the calls
+    check_histories(corr, hists + gen_histories(ctx))
     corr.extra["translated"] = _gen.get("devices", {})
     return corr
 
@@ -449,7 +673,7 @@ def classify(f):
     inp = f.get("input") or {}
     what = f.get("what", "")
     obs = f.get("observed")
-    if not isinstance(inp, dict) or "processor" not in inp:
+    if not isinstance(inp, dict) or "processor" not in inp or "gates" not in inp:
         return None
     coupling = what in ("transpiled circuit has a multi-qubit gate on qubits the hardware does not couple",
                         "transpiled circuit uses a qubit the processor does not have")
@@ -462,6 +686,8 @@ def classify(f):
 
 
 def _fails(inp):
+    if "history" in inp:
+        return [(what, obs, exp) for _, what, obs, exp in history_fails(inp)]
     impl = run_impl(inp)
     if impl[0] == "unbuildable":
         return []
@@ -478,6 +704,14 @@ def search(ctx, broken):
     out = []
     seen = set()
     cands = [inp for _, inp in load_corpus()]
+    # histories first: state kept by the processor between calls is invisible to single calls
+    class T:
+        rng = ctx.rng
+        thorough = False
+
+        def n(self, q, t):
+            return q
+    cands += gen_histories(T())
     for proc in PROCESSORS:
         for N in (3, 4, 5):
             for name in THREE + TWO:
@@ -488,7 +722,7 @@ def search(ctx, broken):
     for inp in cands:
         for what, obs, exp in _fails(inp):
             f = dict(input=inp, observed=obs, expected=exp, what=what)
-            key = (what, classify(f))
+            key = (what.split(" (call ")[0] + (" [history]" if "history" in inp else ""), classify(f))
             if key not in seen:
                 seen.add(key)
                 out.append(f)
